@@ -5,6 +5,7 @@ package main
 
 import (
 	"fmt"
+	"os"
 	"go/types"
 	"math"
 	"unicode"
@@ -218,6 +219,20 @@ func init() {
 			conds := make([]*Term, n)
 			for i := range conds {
 				conds[i] = trueT
+			}
+			// debugging aid: VERIF_FIX="name#k=v,..." pins forked choices (restricts the exploration)
+			if fix := os.Getenv("VERIF_FIX"); fix != "" {
+				for _, kv := range strings.Split(fix, ",") {
+					if p := strings.SplitN(kv, "=", 2); len(p) == 2 && p[0] == name {
+						if v, err := strconv.Atoi(p[1]); err == nil && v >= 0 && v < n {
+							for i := range conds {
+								if i != v {
+									conds[i] = falseT
+								}
+							}
+						}
+					}
+				}
 			}
 			d := m.decide(conds)
 			m.choices[name] = int64(d)
@@ -809,11 +824,13 @@ func sumToString(fr *frame, a []value) value {
 	if t, ok := v.v.(*Term); ok && t.S.K == KBV && v.t != nil {
 		if b, isB := v.t.Underlying().(*types.Basic); isB && isInteger(b) {
 			// the decimal text of an integer: parsing it back gives the integer
-			_, signed := intWidth(b)
-			if m.intText == nil {
-				m.intText = map[string]*Term{}
+			w, signed := intWidth(b)
+			if signed || w < 64 {
+				if m.intText == nil {
+					m.intText = map[string]*Term{}
+				}
+				m.intText[tag] = m.ctx.Resize(t, 64, signed)
 			}
-			m.intText[tag] = m.ctx.Resize(t, 64, signed)
 		}
 	}
 	return Str{Opaque: true, OTag: tag}
